@@ -27,6 +27,13 @@ Proof. exact (strip_text ns). Qed.
 Theorem C14_idempotent (ns : list (node str)) : strip_empty (strip_empty ns) = strip_empty ns.
 Proof. exact (strip_idem ns). Qed.
 
+(* "void" is exactly br, hr, img, input: the table Element._VOID_TAG_NAMES, regenerated from html/nodes.py on every run, holds
+   these four names and no other — a childless element of any other name is empty content and is dropped *)
+Theorem C14_void_elements_are_br_hr_img_input :
+  forallb (fun n => mem_str n [[98;114]; [104;114]; [105;109;103]; [105;110;112;117;116]]) HtmlTables.void_tag_names
+  && forallb (fun n => mem_str n HtmlTables.void_tag_names) [[98;114]; [104;114]; [105;109;103]; [105;110;112;117;116]] = true.
+Proof. vm_compute. reflexivity. Qed.
+
 (* conversion level: with ignore_empty_paragraphs = False every paragraph that no `!` mapping drops yields its block, empty or not *)
 Theorem C14_paragraph_kept_on_request (o : copts) (cm : list comment) cs sid sname num hdr st ns st' t l :
   o_ignore_empty o = false -> para_path o sid sname num = PElems (t :: l) ->
@@ -63,6 +70,7 @@ Print Assumptions C14_nothing_empty_left.
 Print Assumptions C14_content_preserved.
 Print Assumptions C14_text_preserved.
 Print Assumptions C14_idempotent.
+Print Assumptions C14_void_elements_are_br_hr_img_input.
 Print Assumptions C14_paragraph_kept_on_request.
 Print Assumptions C14_paragraph_dropped_by_default.
 Print Assumptions C14_structure_kept.
